@@ -44,7 +44,9 @@ type VM struct {
 	waiting  bool // a HALT was the last thing executed: page state is cleared when execution resumes
 	started  bool
 	loadFail bool // an external function failed at some point (the code never clears LOADFAIL)
-	Ended    bool // long-lived engine after the session ended: further requests are not defined
+	// afterCroak: symbols that were loaded when a CROAK was taken (their visibility afterwards is undocumented)
+	afterCroak map[string]bool
+	Ended      bool // long-lived engine after the session ended: further requests are not defined
 }
 
 type Entry struct {
@@ -410,6 +412,9 @@ func (v *VM) exec(in codec.Ins, input []byte, r *Resp) (stop, string) {
 		v.waiting = true
 		return halted, ""
 	case codec.LOAD:
+		if v.afterCroak[in.Sym] {
+			return undefined, "LOAD of a symbol that was loaded when a CROAK was taken (purge not documented)"
+		}
 		if _, ok := v.visible(in.Sym); ok {
 			return goOn, ""
 		}
@@ -433,6 +438,9 @@ func (v *VM) exec(in codec.Ins, input []byte, r *Resp) (stop, string) {
 		v.Last = val
 		return goOn, ""
 	case codec.RELOAD:
+		if v.afterCroak[in.Sym] {
+			return undefined, "RELOAD of a symbol that was loaded when a CROAK was taken (purge not documented)"
+		}
 		lvl, ok := v.visible(in.Sym)
 		if !ok {
 			return undefined, "RELOAD of a symbol that is not visible"
@@ -455,6 +463,9 @@ func (v *VM) exec(in codec.Ins, input []byte, r *Resp) (stop, string) {
 		}
 		return v.mapSym(in.Sym)
 	case codec.MAP:
+		if v.afterCroak[in.Sym] {
+			return undefined, "MAP of a symbol that was loaded when a CROAK was taken (purge not documented)"
+		}
 		if _, ok := v.visible(in.Sym); !ok {
 			return undefined, "MAP of a symbol that is not visible"
 		}
@@ -503,6 +514,16 @@ func (v *VM) exec(in codec.Ins, input []byte, r *Resp) (stop, string) {
 		v.Pending = nil
 		v.clearPage()
 		r.Croaked = true
+		// the code purges loaded symbols here; the documentation does not say so. Whether a symbol loaded
+		// before the croak is still visible afterwards is therefore unknown to the reference.
+		if v.afterCroak == nil {
+			v.afterCroak = map[string]bool{}
+		}
+		for _, sc := range v.Scopes {
+			for k := range sc {
+				v.afterCroak[k] = true
+			}
+		}
 		return goOn, ""
 	case codec.MOUT:
 		v.menu = append(v.menu, [2]string{in.Sel, in.Sym})
